@@ -73,14 +73,97 @@ fn absolutise_includes(line: &str, orig_dir: &Path) -> String {
     }
 }
 
-/// `crate::x` -> `crate::gens::<gen>::x`, `$crate::x` likewise (not inside identifiers)
-fn rehome_crate_paths(line: &str, gen: &str) -> String {
+/// `crate::x` -> `crate::gens::<gen>::x`, `$crate::x` likewise — in code only: string literals
+/// (the generators print Rust source that may itself say `crate::…`), character literals and
+/// comments are copied untouched. Works on the whole file (strings span lines).
+fn rehome_crate_paths(src: &str, gen: &str) -> String {
     let target = format!("crate::gens::{}::", gen);
-    let mut out = String::with_capacity(line.len() + 16);
-    let b = line.as_bytes();
-    let mut i = 0;
+    let b = src.as_bytes();
+    let mut out = String::with_capacity(src.len() + 64);
+    let mut i = 0usize;
+    let copy_to = |out: &mut String, from: usize, to: usize| out.push_str(&src[from..to]);
     while i < b.len() {
-        if line[i..].starts_with("crate::") {
+        // line comment
+        if b[i] == b'/' && i + 1 < b.len() && b[i + 1] == b'/' {
+            let end = src[i..].find('\n').map(|n| i + n).unwrap_or(b.len());
+            copy_to(&mut out, i, end);
+            i = end;
+            continue;
+        }
+        // block comment (nesting)
+        if b[i] == b'/' && i + 1 < b.len() && b[i + 1] == b'*' {
+            let mut depth = 0;
+            let mut j = i;
+            while j < b.len() {
+                if b[j] == b'/' && j + 1 < b.len() && b[j + 1] == b'*' {
+                    depth += 1;
+                    j += 2;
+                } else if b[j] == b'*' && j + 1 < b.len() && b[j + 1] == b'/' {
+                    depth -= 1;
+                    j += 2;
+                    if depth == 0 {
+                        break;
+                    }
+                } else {
+                    j += 1;
+                }
+            }
+            copy_to(&mut out, i, j.min(b.len()));
+            i = j.min(b.len());
+            continue;
+        }
+        // raw string r"…", r#"…"#, br#"…"#
+        if (b[i] == b'r' || (b[i] == b'b' && i + 1 < b.len() && b[i + 1] == b'r')) && !(i > 0 && (b[i - 1].is_ascii_alphanumeric() || b[i - 1] == b'_')) {
+            let mut j = if b[i] == b'b' { i + 2 } else { i + 1 };
+            let mut hashes = 0;
+            while j < b.len() && b[j] == b'#' {
+                hashes += 1;
+                j += 1;
+            }
+            if j < b.len() && b[j] == b'"' {
+                let close = format!("\"{}", "#".repeat(hashes));
+                let end = src[j + 1..].find(&close).map(|n| j + 1 + n + close.len()).unwrap_or(b.len());
+                copy_to(&mut out, i, end);
+                i = end;
+                continue;
+            }
+        }
+        // ordinary string "…" (also b"…")
+        if b[i] == b'"' {
+            let mut j = i + 1;
+            while j < b.len() {
+                if b[j] == b'\\' {
+                    j += 2;
+                } else if b[j] == b'"' {
+                    j += 1;
+                    break;
+                } else {
+                    j += 1;
+                }
+            }
+            copy_to(&mut out, i, j.min(b.len()));
+            i = j.min(b.len());
+            continue;
+        }
+        // character literal (not a lifetime): 'x' or '\n' or '\u{..}'
+        if b[i] == b'\'' {
+            let rest = &src[i + 1..];
+            let lit_len = if rest.starts_with('\\') {
+                rest.find('\'').map(|n| n + 1)
+            } else {
+                let mut it = rest.char_indices();
+                match (it.next(), it.next()) {
+                    (Some((_, c)), Some((n, '\''))) if c != '\'' => Some(n + 1),
+                    _ => None,
+                }
+            };
+            if let Some(n) = lit_len {
+                copy_to(&mut out, i, i + 1 + n);
+                i += 1 + n;
+                continue;
+            }
+        }
+        if src[i..].starts_with("crate::") {
             let prev_ident = i > 0 && (b[i - 1].is_ascii_alphanumeric() || b[i - 1] == b'_');
             if !prev_ident {
                 out.push_str(&target);
@@ -88,9 +171,8 @@ fn rehome_crate_paths(line: &str, gen: &str) -> String {
                 continue;
             }
         }
-        // (multi-byte characters are copied byte-wise: the text is only re-emitted)
-        let ch_len = line[i..].chars().next().map(|c| c.len_utf8()).unwrap_or(1);
-        out.push_str(&line[i..i + ch_len]);
+        let ch_len = src[i..].chars().next().map(|c| c.len_utf8()).unwrap_or(1);
+        out.push_str(&src[i..i + ch_len]);
         i += ch_len;
     }
     out
@@ -105,7 +187,7 @@ fn neutralise(src: &str, gen: &str, orig_dir: &Path) -> String {
         let line: &str = if t.starts_with("//") {
             line
         } else {
-            line2 = rehome_crate_paths(&absolutise_includes(line, orig_dir), gen);
+            line2 = absolutise_includes(line, orig_dir);
             &line2
         };
         if in_block_doc {
@@ -135,7 +217,7 @@ fn neutralise(src: &str, gen: &str, orig_dir: &Path) -> String {
             out.push_str(line);
         }
     }
-    out
+    rehome_crate_paths(&out, gen)
 }
 
 const SHADOW: &str = "#[allow(unused_imports)] mod std { pub use crate::seams::shadow_std::*; pub use crate::seams::shadow_std::env; } #[allow(unused_imports, dead_code)] mod walkdir { pub use crate::seams::shim_walkdir::*; } #[allow(unused_imports, dead_code)] mod rayon { pub use crate::seams::shim_rayon::*; } #[allow(unused_imports)] use crate::seams::{LocalKeyCellExt as _, LocalKeyRefCellExt as _}; ";
